@@ -153,6 +153,23 @@ def check_corollary(case, ctx):
             bn, mg, inst.score(mg), sn, mb, inst.score(mb)))
 
 
+@st.composite
+def election_cases(draw, tier):
+    """a few distinct ballots with multiplicities in the hundreds: scores in the thousands, where absolute and
+    relative tolerances on scores part ways (distinct local optima whose scores differ by less than 0.1 %)"""
+    starters = draw(st.sampled_from(["none", "none", "none", "borda_copeland", "cop_kwik_borda", "kwik"]))
+    scheme = draw(st.one_of(gen.any_schemes(), gen.preset_multiples(["unifying", "pseudodistance", "induced"])))
+    if draw(st.booleans()):
+        ds = draw(gen.datasets(max_n=8, min_n=5, max_m=4, shapes=["election"], kinds=("dense", "str"),
+                               allow_empty_rankings=False, allow_duplicates=False))
+    else:
+        ds = draw(gen.datasets(max_n=30, min_n=18, max_m=4, shapes=["large_uniform"], kinds=("dense", "mult8"),
+                               allow_empty_rankings=False, allow_duplicates=False))
+    return {"starters": starters, "scheme": scheme, "dataset": ds,
+            "at_most_one": draw(st.booleans()), "rng": draw(st.integers(0, 9999))}
+
+
 def subchecks():
     return [HypSub("not_worse", cases, check, 9000, 80000),
+            HypSub("large_multiplicities", election_cases, check, 500, 6000),
             HypSub("corollaries", corollary_cases, check_corollary, 3000, 30000)]
